@@ -2,8 +2,9 @@
    an alias continuation line ("-| 'x' # text"), which is appended to the LAST statement read so far.
    Hence: a block of lines whose continuation lines all follow a statement of the same block contributes the
    same statements / lines / errors whatever precedes it (isolation_general), a malformed line contributes
-   exactly its own error (line_isolation), and the model agrees with the per-unit spec outside the two classes
-   of Spec/AnnGrammar.v (fragment_spec_agrees). *)
+   exactly its own error (line_isolation), and the model agrees with the per-unit spec outside the class
+   cont_after_bad of Spec/AnnGrammar.v (fragment_spec_agrees).  clearEmpytAlias drops an alias without type
+   together with its line: Stats and Lines stay aligned (Proofs/AnnTotal.v), so it is `clear_aligned`. *)
 From Coq Require Import String Ascii List Arith NArith Bool Lia.
 From LH Require Import Base.Bytes Base.Res Model.AnnLexer Model.AnnAst Model.AnnParser Spec.AnnGrammar
   Proofs.AnnLexFacts Proofs.AnnTotal.
@@ -120,9 +121,32 @@ Proof.
   destruct (frag_step fr ln); cbn [rbind]; [apply IH|reflexivity|reflexivity].
 Qed.
 
-Lemma clear_empty_alias_app a b :
-  clear_empty_alias (frag_app a b) = frag_app (clear_empty_alias a) (clear_empty_alias b).
-Proof. unfold clear_empty_alias, frag_app. cbn [f_stats f_lines f_errs]. rewrite filter_app. reflexivity. Qed.
+(* clearEmpytAlias = dropping the (statement, line) pairs of the aliases without type *)
+Lemma clear_empty_alias_aligned fr : aligned fr -> clear_empty_alias fr = Ok (clear_aligned fr).
+Proof. intros Ha. unfold clear_empty_alias. rewrite (clear_loop_aligned _ _ Ha). reflexivity. Qed.
+
+Lemma combine_app {A B} (a1 a2 : list A) (b1 b2 : list B) :
+  length a1 = length b1 -> combine (a1 ++ a2) (b1 ++ b2) = combine a1 b1 ++ combine a2 b2.
+Proof.
+  revert b1. induction a1 as [|x a1 IH]; intros [|y b1] H; cbn in *; try discriminate; [reflexivity|].
+  f_equal. apply IH. lia.
+Qed.
+
+Lemma clear_aligned_app a b : aligned a ->
+  clear_aligned (frag_app a b) = frag_app (clear_aligned a) (clear_aligned b).
+Proof.
+  intros Ha. unfold clear_aligned, frag_app. cbn [f_stats f_lines f_errs].
+  rewrite (combine_app _ _ _ _ Ha), filter_app, !map_app. reflexivity.
+Qed.
+
+Lemma frag_app_aligned a b : aligned a -> aligned b -> aligned (frag_app a b).
+Proof. unfold aligned, frag_app. cbn [f_stats f_lines]. rewrite !app_length. lia. Qed.
+
+Lemma parse_fragment_clear ls fr : frag_loop frag_empty ls = Ok fr -> parse_fragment ls = Ok (clear_aligned fr).
+Proof.
+  intros H. unfold parse_fragment. change (mkFrag [] [] []) with frag_empty. rewrite H. cbn [rbind].
+  apply clear_empty_alias_aligned. exact (frag_loop_aligned ls _ _ H eq_refl).
+Qed.
 
 (* C16_line_isolation: a malformed line (one that yields exactly an error) between two blocks of lines *)
 Theorem line_isolation : forall ls1 bad ls2 p1 p2 e,
@@ -133,15 +157,19 @@ Theorem line_isolation : forall ls1 bad ls2 p1 p2 e,
   Ok (mkFrag (f_stats p1 ++ f_stats p2) (f_lines p1 ++ f_lines p2) (f_errs p1 ++ e :: f_errs p2)).
 Proof.
   intros ls1 bad ls2 p1 p2 e H1 H2 Hnc Hbad Hsc.
-  unfold parse_fragment in *. change (mkFrag [] [] []) with frag_empty in *.
-  destruct (frag_loop frag_empty ls1) as [fr1| |] eqn:E1; cbn [rbind] in H1; try discriminate H1.
-  destruct (frag_loop frag_empty ls2) as [fr2| |] eqn:E2; cbn [rbind] in H2; try discriminate H2.
+  destruct (frag_loop_no_fault ls1 frag_empty) as [fr1 E1]. destruct (frag_loop_no_fault ls2 frag_empty) as [fr2 E2].
+  rewrite (parse_fragment_clear _ _ E1) in H1. rewrite (parse_fragment_clear _ _ E2) in H2.
   injection H1 as <-. injection H2 as <-.
-  rewrite frag_loop_app, E1. cbn [rbind frag_loop].
-  rewrite <- (frag_app_empty_r fr1) at 1. rewrite (frag_step_append fr1 frag_empty bad Hnc), Hbad. cbn [rbind].
-  rewrite <- (frag_app_empty_r (frag_app fr1 _)).
-  rewrite (isolation_general ls2 _ frag_empty Hsc), E2. cbn [rbind].
-  rewrite !clear_empty_alias_app. unfold frag_app, clear_empty_alias. cbn [f_stats f_lines f_errs filter app].
+  pose proof (frag_loop_aligned ls1 _ _ E1 eq_refl) as A1.
+  assert (E : frag_loop frag_empty (ls1 ++ bad :: ls2) = Ok (frag_app (frag_app fr1 (mkFrag [] [] [e])) fr2)).
+  { rewrite frag_loop_app, E1. cbn [rbind frag_loop].
+    rewrite <- (frag_app_empty_r fr1) at 1. rewrite (frag_step_append fr1 frag_empty bad Hnc), Hbad. cbn [rbind].
+    rewrite <- (frag_app_empty_r (frag_app fr1 _)).
+    rewrite (isolation_general ls2 _ frag_empty Hsc), E2. cbn [rbind]. rewrite frag_app_empty_r. reflexivity. }
+  rewrite (parse_fragment_clear _ _ E).
+  rewrite clear_aligned_app by (apply frag_app_aligned; [exact A1|reflexivity]).
+  rewrite clear_aligned_app by exact A1.
+  unfold frag_app, clear_aligned. cbn [f_stats f_lines f_errs combine filter map app].
   rewrite !app_nil_r. rewrite <- app_assoc. reflexivity.
 Qed.
 
@@ -216,38 +244,7 @@ Proof.
     rewrite (raw_units_compose us Ht Hgs a). reflexivity.
 Qed.
 
-(* ------------------------------------------------------------------ Stats and Lines stay aligned while reading *)
-Lemma append_alias_last_length stats ct : length (append_alias_last stats ct) = length stats.
-Proof.
-  unfold append_alias_last. destruct (rev stats) as [|lst before] eqn:Er; [reflexivity|].
-  destruct (is_alias lst); [|reflexivity].
-  rewrite app_length, rev_length. cbn [length].
-  rewrite <- (rev_length stats), Er. cbn [length]. lia.
-Qed.
-
-Definition aligned (fr : frag) : Prop := length (f_stats fr) = length (f_lines fr).
-
-Lemma frag_step_aligned fr ln fr' : frag_step fr ln = Ok fr' -> aligned fr -> aligned fr'.
-Proof.
-  destruct ln as [lno text]. unfold frag_step, aligned. intros H Ha.
-  destruct (check_head s_alias_head text) as [[c|]| |]; cbn [rbind] in H; try discriminate H.
-  - destruct (parse_extra_alias_line (mkLx c None)) as [[ct|] l'| | |]; try discriminate H;
-      injection H as <-; [|exact Ha]. cbn [f_stats f_lines]. rewrite append_alias_last_length. exact Ha.
-  - destruct (check_head s_head text) as [[c|]| |]; cbn [rbind] in H; try discriminate H.
-    + destruct (ann_parse_line (fuel_of c) c) as [[s|e]| |]; cbn [rbind] in H; try discriminate H.
-      * destruct s; injection H as <-; cbn [f_stats f_lines]; try exact Ha; rewrite !app_length; cbn [length]; lia.
-      * injection H as <-. exact Ha.
-    + injection H as <-. exact Ha.
-Qed.
-
-Lemma frag_loop_aligned ls : forall fr fr', frag_loop fr ls = Ok fr' -> aligned fr -> aligned fr'.
-Proof.
-  induction ls as [|ln ls IH]; intros fr fr' H Ha; cbn [frag_loop] in H.
-  - injection H as <-. exact Ha.
-  - destruct (frag_step fr ln) as [fr1| |] eqn:E; cbn [rbind] in H; try discriminate H.
-    eapply IH; [exact H|]. eapply frag_step_aligned; eassumption.
-Qed.
-
+(* ------------------------------------------------------------------ clearEmpytAlias on aligned fragments *)
 Lemma combine_fst {A B} (a : list A) (b : list B) : length a = length b -> map fst (combine a b) = a.
 Proof.
   revert b. induction a as [|x a IH]; intros [|y b] H; cbn in *; try reflexivity; try discriminate.
@@ -259,65 +256,35 @@ Proof.
   f_equal. apply IH. lia.
 Qed.
 
-Lemma filter_all {A} (p : A -> bool) l : forallb p l = true -> filter p l = l.
+(* the per-unit spec = clearing the concatenation of the units read one by one *)
+Lemma units_spec_raw us : forall fr, raw_units us = Ok fr -> parse_units_spec us = Ok (clear_aligned fr) /\ aligned fr.
 Proof.
-  induction l as [|x l IH]; cbn; [reflexivity|]. intros H. apply andb_true_iff in H as [H1 H2].
-  rewrite H1, IH by assumption. reflexivity.
+  induction us as [|u us IH]; intros fr H; cbn [raw_units parse_units_spec] in *.
+  - injection H as <-. split; reflexivity.
+  - unfold parse_unit_spec.
+    destruct (frag_loop frag_empty u) as [a| |] eqn:Ea; cbn [rbind] in *; try discriminate H.
+    destruct (raw_units us) as [b| |] eqn:Eb; cbn [rbind] in *; try discriminate H.
+    injection H as <-. destruct (IH b eq_refl) as [-> Hb]. cbn [rbind].
+    pose proof (frag_loop_aligned u _ _ Ea eq_refl) as Ha.
+    split; [rewrite (clear_aligned_app a b Ha); reflexivity | apply frag_app_aligned; assumption].
 Qed.
 
-Lemma forallb_combine_fst {A B} (p : A -> bool) (a : list A) (b : list B) :
-  forallb p a = true -> forallb (fun q => p (fst q)) (combine a b) = true.
-Proof.
-  revert b. induction a as [|x a IH]; intros [|y b] H; cbn in *; try reflexivity.
-  apply andb_true_iff in H as [H1 H2]. rewrite H1. cbn. apply IH. exact H2.
-Qed.
-
-Lemma no_empty_forallb stats : existsb empty_alias stats = false -> forallb (fun s => negb (empty_alias s)) stats = true.
-Proof.
-  induction stats as [|s l IH]; cbn; [reflexivity|]. intros H. apply orb_false_iff in H as [H1 H2].
-  rewrite H1, IH by assumption. reflexivity.
-Qed.
-
-Lemma clear_aligned_id fr : aligned fr -> existsb empty_alias (f_stats fr) = false -> clear_aligned fr = fr.
-Proof.
-  intros Ha Hn. unfold clear_aligned. rewrite filter_all.
-  - rewrite combine_fst, combine_snd by exact Ha. destruct fr. reflexivity.
-  - apply (forallb_combine_fst (fun s => negb (empty_alias s))). apply no_empty_forallb. exact Hn.
-Qed.
-
-Lemma clear_empty_alias_id fr : existsb empty_alias (f_stats fr) = false -> clear_empty_alias fr = fr.
-Proof.
-  intros Hn. unfold clear_empty_alias. rewrite filter_all by (apply no_empty_forallb; exact Hn).
-  destruct fr. reflexivity.
-Qed.
-
-Lemma aligned_empty : aligned frag_empty.
-Proof. reflexivity. Qed.
-
-(* the per-unit spec on units without an alias that stays empty *)
-Lemma units_spec_raw us : forall fr,
-  raw_units us = Ok fr -> existsb empty_alias (f_stats fr) = false -> parse_units_spec us = Ok fr.
-Proof.
-  induction us as [|u us IH]; intros fr H Hn; cbn [raw_units parse_units_spec] in *; [exact H|].
-  unfold parse_unit_spec.
-  destruct (frag_loop frag_empty u) as [a| |] eqn:Ea; cbn [rbind] in *; try discriminate H.
-  destruct (raw_units us) as [b| |] eqn:Eb; cbn [rbind] in *; try discriminate H.
-  injection H as <-. unfold frag_app in Hn. cbn [f_stats] in Hn. rewrite existsb_app in Hn.
-  apply orb_false_iff in Hn as [Hna Hnb].
-  rewrite (clear_aligned_id a (frag_loop_aligned u _ _ Ea aligned_empty) Hna).
-  rewrite (IH b eq_refl Hnb). reflexivity.
-Qed.
-
-(* outside the two classes the model of ParseCommentFragment is the per-unit spec *)
+(* outside the class cont_after_bad the model of ParseCommentFragment is the per-unit spec *)
 Theorem fragment_spec_agrees : forall ls,
-  frag_cont_after_bad ls = false -> frag_lines_desync ls = false ->
-  parse_fragment ls = parse_fragment_spec ls.
+  frag_cont_after_bad ls = false -> parse_fragment ls = parse_fragment_spec ls.
 Proof.
-  intros ls Hg Hd. unfold parse_fragment, parse_fragment_spec, frag_lines_desync in *.
-  change (mkFrag [] [] []) with frag_empty.
+  intros ls Hg. unfold parse_fragment_spec.
   pose proof (raw_whole ls Hg) as Hr.
-  destruct (frag_loop frag_empty ls) as [fr| |] eqn:E; cbn [rbind].
-  - rewrite (clear_empty_alias_id fr Hd). symmetry. apply units_spec_raw; [symmetry; exact Hr | exact Hd].
-  - destruct (frag_loop_no_fault ls frag_empty) as [x Hx]. congruence.
-  - destruct (frag_loop_no_fault ls frag_empty) as [x Hx]. congruence.
+  destruct (frag_loop_no_fault ls frag_empty) as [fr E].
+  rewrite (parse_fragment_clear _ _ E). symmetry. apply units_spec_raw. rewrite <- Hr. exact E.
+Qed.
+
+(* Lines[i] is the line of Stats[i]: the result is the list of (statement, line) pairs of the lines that yield a
+   statement, minus the aliases that never got a type -- for ALL inputs *)
+Theorem fragment_pairs : forall ls, exists fr0,
+  frag_loop frag_empty ls = Ok fr0 /\ length (f_stats fr0) = length (f_lines fr0) /\
+  parse_fragment ls = Ok (clear_aligned fr0).
+Proof.
+  intros ls. destruct (frag_loop_no_fault ls frag_empty) as [fr E]. exists fr.
+  split; [exact E|]. split; [exact (frag_loop_aligned ls _ _ E eq_refl)|]. apply parse_fragment_clear. exact E.
 Qed.
